@@ -112,9 +112,7 @@ def run(ctx):
         defs["D%d" % i] = ("decls", eg.to_decls(p))
         exprs.append((["D%d" % i], "N.add (N.add (%s) (N.mul 3 (%s))) (N.mul 9 (if wf_sys_ok (lower D%d) then 1%%N else 0%%N))" % (
             logic.ob("wf_check_model %d D%d" % (FUEL, i)), logic.ob("strict_ok %d D%d" % (FUEL, i)), i)))
-    codes, fl = logic.coq_codes(ctx.work, "model", defs, exprs, shard=max(4, len(exprs) // 16 + 1), imports=IMPORTS)
-    if fl:
-        raise core.CheckFailure("coq evaluation failed: %s" % (fl[0],))
+    codes = eg.coq_codes_retry(ctx, "model", defs, exprs, IMPORTS, ["Props/C21.vo"], shard=max(4, len(exprs) // 16 + 1))
     model, strict = {}, {}
     dec = {0: False, 1: True, 2: None}
     for i, c in enumerate(codes):
@@ -142,9 +140,7 @@ def run(ctx):
             for args in arg_tuples(univ, n, ctx.n(25, 200), rng):
                 cexprs.append((["D%d" % i], "concl_adt %d D%d %s %s" % (FUEL, i, sx.to_coq(a), sx.to_coq([ground_model(x, st) for x in args]))))
                 cmeta.append((i, "adt", p.adts[ai].name, args))
-    ccodes, fl = logic.coq_codes(ctx.work, "concl", defs, cexprs, shard=max(40, len(cexprs) // 16 + 1), imports=IMPORTS)
-    if fl:
-        raise core.CheckFailure("coq evaluation failed: %s" % (fl[0],))
+    ccodes = eg.coq_codes_retry(ctx, "concl", defs, cexprs, IMPORTS, ["Props/C21.vo"], shard=max(40, len(cexprs) // 16 + 1))
     fails = collections.defaultdict(list)
     stats = collections.Counter()
     for (i, kind, name, args), c in zip(cmeta, ccodes):
